@@ -116,7 +116,27 @@ func newRunCtx(info *buildInfo, prop, tier string, seed uint64) (*runCtx, error)
 	if err != nil {
 		return nil, err
 	}
-	return &runCtx{info: info, scratch: d, prop: prop, tier: tier, seed: seed}, nil
+	rc := &runCtx{info: info, scratch: d, prop: prop, tier: tier, seed: seed}
+	cleanups = append(cleanups, rc.cleanup)
+	removeStaleScratch(base)
+	return rc, nil
+}
+
+// removeStaleScratch deletes scratch directories of runs that ended without cleaning up
+// (killed from outside) once they are older than six hours.
+func removeStaleScratch(base string) {
+	ents, err := os.ReadDir(base)
+	if err != nil {
+		return
+	}
+	for _, e := range ents {
+		if !e.IsDir() || !(strings.HasPrefix(e.Name(), "verif-run-") || strings.HasPrefix(e.Name(), "verif-build-")) {
+			continue
+		}
+		if fi, err := e.Info(); err == nil && time.Since(fi.ModTime()) > 6*time.Hour {
+			os.RemoveAll(filepath.Join(base, e.Name()))
+		}
+	}
 }
 
 func (rc *runCtx) cleanup() { os.RemoveAll(rc.scratch) }
